@@ -3,6 +3,7 @@ package c12
 
 import (
 	"fmt"
+	"net"
 	"sort"
 	"strings"
 	"sync"
@@ -15,6 +16,7 @@ import (
 
 	"verif/harness/evid"
 	"verif/harness/refcheck"
+	"verif/harness/sim/dns"
 	"verif/harness/sim/kdc"
 )
 
@@ -30,6 +32,8 @@ type Case struct {
 	Limit string `json:"udp_preference_limit"` // "1" (TCP only) | "small" (below the request size: TCP first) | "large" (UDP first)
 	Code  int    `json:"code,omitempty"`       // error code of the endpoints answering a KRB-ERROR (0 = 12, KDC_ERR_POLICY)
 	Then  []EP   `json:"then,omitempty"`       // a second exchange of the same client after the endpoints changed to these behaviours
+	Names string `json:"names,omitempty"`      // the kdc lines name hosts instead of addresses: "single" = each name has one address, "multi" = two dead addresses in front of the real one
+	List  []int  `json:"kdc_lines,omitempty"`  // the realm's kdc lines in order, as indices into kdcs (a host may be listed more than once); empty = each once
 }
 
 var udpBeh = []kdc.Behaviour{kdc.Answers, kdc.Refuses, kdc.ClosesEarly, kdc.Silent, kdc.AnswersErr, kdc.TooBig}
@@ -97,6 +101,15 @@ func perms(n int) [][]int {
 // describes it — skip faulty servers, surface a KRB-ERROR, switch to TCP on response-too-big,
 // fall back to the other transport when every server of the first one is faulty.
 func Expected(c Case) map[string]bool {
+	if c.Names == "multi" {
+		// a name whose first address is dead: a TCP connection goes on to the next address, a UDP "connection" does not
+		// (nothing tells the sender in time), so over UDP every such host behaves as if it refused
+		eps := append([]EP{}, c.EPs...)
+		for i := range eps {
+			eps[i].UDP = kdc.Refuses
+		}
+		c.EPs, c.Names = eps, "single"
+	}
 	exp := map[string]bool{}
 	surf := func(r string) string { return "err:" + strings.SplitN(r, ":", 2)[1] }
 	ps := perms(len(c.EPs))
@@ -194,6 +207,29 @@ func Eval(c Case) evid.Verdict {
 		for _, s := range servers {
 			addrs = append(addrs, s.Addr)
 		}
+		if c.Names != "" {
+			ns, err := dns.Global()
+			if err != nil {
+				return evid.Fail("harness", "dns: %v", err)
+			}
+			for i, s := range servers {
+				_, port, _ := net.SplitHostPort(s.Addr)
+				name := fmt.Sprintf("k%d-%s.verif.test", i+1, strings.ReplaceAll(ip, ".", "-"))
+				if c.Names == "multi" {
+					ns.Set(name, kdc.UniqueIP(), kdc.UniqueIP(), ip)
+				} else {
+					ns.Set(name, ip)
+				}
+				addrs[i] = net.JoinHostPort(name, port)
+			}
+		}
+		if len(c.List) > 0 {
+			base := addrs
+			addrs = nil
+			for _, i := range c.List {
+				addrs = append(addrs, base[i%len(base)])
+			}
+		}
 		defer stopAll()
 		lim := map[string]int{"1": 1, "small": 10, "large": 32700}[c.Limit]
 		cfg, err := config.NewFromString(kdc.ConfText(kdc.ConfOpts{DefaultRealm: "EXAMPLE.COM", ETypes: "aes128-cts-hmac-sha1-96", NoAddresses: true, UDPPrefLimit: &lim},
@@ -281,8 +317,12 @@ func exchange(c Case, cl *client.Client, serversp *[]*kdc.Server, note string) e
 				return evid.Fail("error-not-surfaced", "a KDC's KRB-ERROR should have been surfaced as that error: %s", desc)
 			}
 		}
-		// only endpoints the permitted transports include may be contacted, at most once each per try
-		if attempts > 2*len(c.EPs) {
+		// only endpoints the permitted transports include may be contacted, at most once per kdc line and try
+		lines := len(c.EPs)
+		if len(c.List) > lines {
+			lines = len(c.List)
+		}
+		if attempts > 2*lines {
 			return evid.Fail("unbounded-attempts", "%d connection attempts for one request with %d KDCs: %s", attempts, len(c.EPs), desc)
 		}
 		if c.Limit == "1" {
@@ -429,7 +469,37 @@ func TestProp(t *testing.T) {
 			}
 		}
 	}
-	r.Rule("enum (continued): TCP endpoints also cut the reply inside its body or inside its length header; the KRB-ERROR code runs through every code 1..93 except 24, 25, 52 and 68; two-exchange cases: one client logs in twice while the endpoints change behaviour in between (7 x 7 single-KDC phases x 3 limits, and a slice with the working KDC moving from the first to the second host)")
+	// a host listed on several kdc lines: the list is still worked through to its end
+	dupk := 0
+	for _, good := range []EP{{kdc.Answers, kdc.Answers}, {kdc.Refuses, kdc.Answers}, {kdc.Answers, kdc.Refuses}} {
+		for _, bad := range []EP{{kdc.Refuses, kdc.Refuses}, {kdc.ClosesEarly, kdc.ClosesEarly}, {kdc.Refuses, kdc.CutsBody}} {
+			for _, list := range [][]int{{0, 1, 0}, {0, 0, 1}, {1, 0, 0}, {0, 1, 0, 1, 0}, {0, 0, 0, 0, 1}} {
+				for _, l := range limits {
+					dupk++
+					if r.Quick() && (dupk+int(r.Seed()))%3 != 0 {
+						continue
+					}
+					// several tries per case: the library shuffles the list, and the working host has to come last to matter
+					for rep := 0; rep < 3; rep++ {
+						add(Case{EPs: []EP{bad, good}, List: list, Limit: l, Code: rep})
+					}
+				}
+			}
+		}
+	}
+	// kdc lines that name hosts (resolved by an in-process DNS responder): one address per name, and names whose first
+	// two addresses are dead
+	namek := 0
+	for _, names := range []string{"single", "multi"} {
+		for _, eps := range [][]EP{{{kdc.Answers, kdc.Answers}}, {{kdc.Refuses, kdc.Answers}}, {{kdc.Answers, kdc.Refuses}}, {{kdc.TooBig, kdc.Answers}}, {{kdc.AnswersErr, kdc.AnswersErr}},
+			{{kdc.Refuses, kdc.Refuses}, {kdc.Answers, kdc.Answers}}, {{kdc.ClosesEarly, kdc.CutsBody}, {kdc.Refuses, kdc.Answers}}, {{kdc.Refuses, kdc.Refuses}, {kdc.Refuses, kdc.Refuses}}} {
+			for _, l := range limits {
+				namek++
+				add(Case{EPs: eps, Limit: l, Names: names, Code: namek % 3})
+			}
+		}
+	}
+	r.Rule("enum (continued): TCP endpoints also cut the reply inside its body or inside its length header; the KRB-ERROR code runs through every code 1..93 except 24, 25, 52 and 68; kdc lines naming hosts that resolve (through an in-process DNS responder) to one address or to two dead addresses followed by the real one; hosts listed on several kdc lines (a faulty host two to four times around one working host, three tries each because the library shuffles the list); two-exchange cases: one client logs in twice while the endpoints change behaviour in between (7 x 7 single-KDC phases x 3 limits, and a slice with the working KDC moving from the first to the second host)")
 	var mu sync.Mutex
 	var retry []Case
 	seenKey := map[string]bool{}
